@@ -133,15 +133,63 @@ class C13(Property):
             if g2[0] == "ok" and g3[0] == "ok" and [a + b for a, b in zip(got[1:], g2[1:])] != g3[1:]:
                 ctx.violation("azimuthal-partition-not-additive", c, {"parts": [got, g2], "whole": g3})
 
+    def oracle_extra(self, ctx: Ctx, c):
+        """further clauses, all on aligned cases: radial partition additivity, robustness of aligned limits against one-ulp
+        perturbations, and rejection (RuntimeError) of lattice limits outside the binned range (no silent empty/partial sums)"""
+        i0, i1, j0, j1 = c["idx"]
+        got = impl(c)
+        if c["rl"] and got[0] == "ok":
+            c2 = dict(c); c2["rl"] = [c["ro"] + i1 * c["rs"], c["ro"] + c["nr"] * c["rs"]]
+            c3 = dict(c); c3["rl"] = [c["ro"] + i0 * c["rs"], c["ro"] + c["nr"] * c["rs"]]
+            g2, g3 = impl(c2), impl(c3)
+            if g2[0] != "ok" or g3[0] != "ok" or [a + b for a, b in zip(got[1:], g2[1:])] != g3[1:]:
+                ctx.violation("radial-partition-not-additive", c, {"parts": [got, g2], "whole": g3})
+        for which in ("rl", "al"):
+            if c[which] and got[0] == "ok":
+                for d in (-1, 1):
+                    cp = dict(c)
+                    cp[which] = [float(np.nextafter(v, v + d)) for v in c[which]]
+                    gp = impl(cp)
+                    if gp != got:
+                        ctx.violation(f"aligned-{which}-limits-not-robust-to-one-ulp", c, {"exact": got, "perturbed": gp})
+        # lattice limits reaching outside the binned range select the bins inside the limits (never a silently empty or
+        # end-relative selection); an outer RADIAL limit beyond the last edge raises (existing behaviour, pinned by the code)
+        arr = np.array(c["bins"], dtype=np.float64).reshape(c["members"], c["nr"], c["na"])
+        k = 1 + (i0 % 3)
+        below = dict(c); below["al"] = None; below["rl"] = [c["ro"] - k * c["rs"], c["ro"] + i1 * c["rs"]]
+        exp = ["ok"] + [int(v) for v in arr[:, 0:i1, :].sum(axis=(-2, -1))]
+        if impl(below) != exp:
+            ctx.violation("radial-limit-below-first-edge-selects-wrong-bins", c, {"expected": exp, "observed": impl(below)})
+        both_below = dict(c); both_below["al"] = None; both_below["rl"] = [c["ro"] - (k + 2) * c["rs"], c["ro"] - k * c["rs"]]
+        exp0 = ["ok"] + [0] * c["members"]
+        if impl(both_below) != exp0:
+            ctx.violation("radial-limits-entirely-below-range-not-empty", c, {"expected": exp0, "observed": impl(both_below)})
+        lower = dict(c); lower["rl"] = None; lower["al"] = [c["ao"] - k * c["as"], c["ao"] + j1 * c["as"]]
+        exp = ["ok"] + [int(v) for v in arr[:, :, 0:j1].sum(axis=(-2, -1))]
+        if impl(lower) != exp:
+            ctx.violation("azimuthal-limit-below-first-edge-selects-wrong-bins", c, {"expected": exp, "observed": impl(lower)})
+        above = dict(c); above["rl"] = None; above["al"] = [c["ao"] + j0 * c["as"], c["ao"] + (c["na"] + k) * c["as"]]
+        exp = ["ok"] + [int(v) for v in arr[:, :, j0:].sum(axis=(-2, -1))]
+        if impl(above) != exp:
+            ctx.violation("azimuthal-limit-beyond-last-edge-selects-wrong-bins", c, {"expected": exp, "observed": impl(above)})
+        beyond = dict(c); beyond["al"] = None; beyond["rl"] = [c["ro"] + i0 * c["rs"], c["ro"] + (c["nr"] + k) * c["rs"]]
+        if impl(beyond)[0] != "err":
+            ctx.violation("radial-limit-beyond-last-edge-accepted", c, {"observed": impl(beyond)})
+
     def conformance(self, ctx: Ctx):
         for k in range(ctx.n(400, 8000)):
             c = gen_case(ctx, "aligned" if k % 2 == 0 else "nondyadic")
             ctx.count("oracle:" + c["kind"])
             self.oracle(ctx, c)
+            self.oracle_extra(ctx, c)
             ctx.case(c, nontrivial=c["rl"] is not None or c["al"] is not None)
 
     def replay(self, ctx: Ctx, case):
-        self.oracle(ctx, case)
+        if case.get("idx") is not None:
+            self.oracle(ctx, case)
+            self.oracle_extra(ctx, case)
+        else:
+            raise NotImplementedError
 
 
 if __name__ == "__main__":
